@@ -27,9 +27,12 @@ P = {
  "C13": ("proof", "Specifier part: C13_refl/sym/trans/total/hash/congr over the regenerated model (generated dataclass ==, Any/Empty __eq__, reflected dispatch, generated hash keys incl. "
          "the two spellings of the universal set): == is an equivalence on canonical values, equal objects have equal hash keys, and equal operands give equal results for every operator and side. "
          "Marker part: C13m_refl/sym/trans (marker == is an equivalence; grouped ==/!= atoms compare their values as sets), C13m_same_meaning, C13m_interchangeable (==-equal operands give & / | results with the same meaning, either side) over Model/Marker.v; "
-         "hash agreement of markers and objects differing only in attached caches: direct oracle only.",
-         TB_PROOF + "; hash() is modelled as a function of the generated hash key (S-gen compares key equality with observed hash equality); marker part: Props/C13m.v over the hand model Model/Marker.v (tied by S-mark), marker hashes by the direct oracle",
-         "machine-checked proof in Coq (specifiers over the regenerated model; marker == over a hand model) + differential oracle (marker hashes)", "5"),
+         "Marker hashes (Props/C13h.v over Model/MarkerHash.v = CPython 3.12's tuple hash, collections.abc.Set._hash and the dataclass hash of every marker class, written out over Z with the 64-bit wrap explicit; the string hash is a parameter, so every PYTHONHASHSEED): "
+         "C13h_hash (==-equal markers whose grouped value lists hold no value twice have equal hashes), C13h_set_order (Set._hash is independent of iteration order), C13h_reach_nodup / C13h_hash_reachable (the side condition holds of everything built from atoms by &, |, MultiMarker.of, MarkerUnion.of, "
+         "so ==-equal results of the algebra hash alike), C13h_dup_refuted (the side condition is needed). Objects differing only in attached caches: direct oracle only.",
+         TB_PROOF + "; hash() of specifiers is modelled as a function of the generated hash key (S-gen compares key equality with observed hash equality); marker part: Props/C13m.v over the hand model Model/Marker.v (tied by S-mark); marker hashes: Model/MarkerHash.v is a hand transcription of CPython's tuple hash and Set._hash, "
+         "tied by the stream S-mhash (mhash under the string hashes observed in the running interpreter = hash(m); marker_eqb = ==; the no-duplicate side condition on every observed marker); hypothesis of C13h_reach_nodup: a merged version atom satisfies the side condition (it is an atom, Any or Empty: checked on every row)",
+         "machine-checked proof in Coq (specifiers over the regenerated model; marker == and marker hashes over hand models tied by correspondence evaluated inside Coq) + differential oracle", "5"),
  "C09": ("proof", "C09_manylinux/musl/mac_x86/mac_arm64/win/score for ALL target versions by induction over the descending ranges (not only the grid), C09_order_grid as a computed sweep over the "
          "property's whole grid, C09_mac_arm64_10_refuted as the machine-checked witness of the recorded finding; Model/Platform.v is tied to platform.py by the S-plat stream, which is EXHAUSTIVE over the "
          "property's configuration grid, and the direct oracle compares every list with an independent rule oracle and with packaging.tags (probes stubbed).",
@@ -64,10 +67,10 @@ ORACLE_ONLY = {
  "C06": "str() never raises and parse(str(s)) == s over parsed specifiers and &,|,~ trees",
  "C07": "str(m) accepted by parse_marker and packaging, re-parsed marker evaluates identically; <empty>/'' specials",
  "C10": "rendered text and truth table of a probe after a random history vs the same probe run first in a fresh interpreter",
- "C11": "specifier view of python_version/python_full_version atoms and from_specifier round trip vs packaging over an interpreter grid",
+ "C11": "specifier view of python_version/python_full_version atoms and from_specifier round trip vs packaging over an interpreter grid; python_version atoms (in / not in lists included) merged with python_full_version atoms vs the combination of the two atoms on consistent interpreters",
  "C12": "only()/exclude()/without_extras(): leaked variables, implication, identity on environment grids",
  "C15": "normal-form checker on every result of parse/&/|/only/exclude",
- "C17": "parser acceptance vs packaging's SpecifierSet per ||-alternative; only InvalidSpecifier may be raised; from_specifierset never raises",
+ "C17": "parser acceptance vs packaging's SpecifierSet per ||-alternative (=== clauses with free-text operands and local versions included); only InvalidSpecifier may be raised; from_specifierset never raises",
 }
 
 TB_MARKER = ("trusted: Coq kernel (the property file is closed under the global context); Model/Marker.v is hand-written and tied to dep_logic.markers by the S-mark stream (structural comparison of parse/&/|/only/exclude results, "
